@@ -13,6 +13,18 @@ ALLOWED_AXIOMS = {
 }
 
 PROPS = {
+    "C01": {
+        "n": {"quick": 2500, "thorough": 60000},
+        "shards": 16,
+        "trusted": [
+            "modelled, not verified: Go's UTF-8 decoding (Lib/Utf8.v decode, rune_len), strings.Split on LF, go.lsp.dev JSON decoding of didChange params (the harness decodes real wire JSON with the protocol types)",
+        ],
+        "assumptions": [
+            "a conforming client sends valid UTF-8 with LF or CRLF line ends (no lone CR), start <= end, and no position inside a surrogate pair (wf_history); other histories are only checked for the tie and for answer freshness",
+            "background analyses are allowed to finish after every notification (orders of completion are C13's subject)",
+        ],
+        "explanation": "C01_refuted (+2 witnesses), C01_partial for all histories outside the two refuted classes, C01_positions; correspondence on generated histories decoded from wire JSON; freshness of 8 handlers' answers compared with a fresh server on the final text",
+    },
     "C19": {
         "n": {"quick": 3000, "thorough": 60000},
         "shards": 16,
